@@ -1,4 +1,6 @@
 from vrun import H
+import importlib.util as _u
+_sp = _u.spec_from_file_location('c04slice', '/verif/harness/C04/slice.py'); c04slice = _u.module_from_spec(_sp); _sp.loader.exec_module(c04slice)
 LEVEL_TEXT = ('Bounded model checking (CBMC) of the verdict plumbing shared by check-express, exppp, exp2cxx and exp2python: error reporting step (error.c), '
   'main() phase gating (fedex.c) and duplicate-declaration detection (dict.c/hash.c), compiled by goto-cc with the flags of the real build.')
 HARNESSES = [
@@ -7,6 +9,11 @@ HARNESSES = [
     bounds='two names of 1..2 bytes over {a b Z}, object types in {entity, type, enum item, function} symbolic; table of 8 buckets (one 256-slot segment)',
     stubs=['pool allocator (alloc.c) replaced by calloc', 'ERRORreport*: record code and arguments'],
     out_of_claim='resolver passes on parser-built ASTs, names longer than 2 bytes (hash arithmetic), table growth (HASHexpand_table)'),
+  H('inherited_attr', 'c', 'harness/C04/h_inhattr.c', tracked=['src/express/resolve.c', 'src/express/entity.c'], cflags=['-fno-builtin'], shadow_scope=True, pregen=c04slice.pregen,
+    unwind=8, object_bits=10, no_checks=True,
+    bounds='three-level entity chain grand <- parent <- child, one plain attribute each, names symbolic over {x y z} (1 byte)',
+    stubs=['VARget_simple_name: plain-declaration branch', 'VAR_resolve_expressions/TYPEresolve_expressions/EXP_resolve/WHEREresolve/DICTdo: empty (expression resolution is not the subject)', 'ERRORreport_with_symbol: records the code', 'shadow express headers', 'functions sliced verbatim from resolve.c / entity.c per run'],
+    out_of_claim='redeclarations (SELF\\super.attr), multiple supertypes, deeper chains, the other resolver checks'),
   H('error_step', 'c', 'harness/C04/h_errstep.c', tracked=['src/express/error.c'], cflags=['-I/repo'], unwind=20,
     bounds='error code symbolic over the whole table (78 entries), suppression bit, previous ERRORoccurred, entry point (ERRORreport / ERRORreport_with_symbol) symbolic; unbuffered mode',
     stubs=['fprintf/vfprintf/fputc: classify the line prefix', 'exit/abort: record status and return'],
